@@ -68,7 +68,7 @@ class ApplicationPartMove(ApplicationBase):
             logger.warning("Destination %r from MOVE request on %r doesn't "
                            "start with base prefix", to_path, path)
             return httputils.NOT_ALLOWED
-        to_path = to_path[len(base_prefix):]
+        to_path = to_path[len(base_prefix):] or "/"
         to_access = Access(self._rights, user, to_path)
         if not to_access.check("w"):
             return httputils.NOT_ALLOWED
